@@ -169,9 +169,7 @@ func buildSave(p *Program, tier string) ([]*Unit, []UnitError) {
 		var upd []*Event
 		for i := range ex.trace {
 			ev := &ex.trace[i]
-			if ev.Depth != 0 {
-				continue
-			}
+			// at any inlining depth: the bookkeeping may sit in a helper of DecorateNode
 			switch {
 			case ev.Kind == "call" && strings.HasSuffix(ev.Callee, "FileSet).File"):
 				fileCall = ev
